@@ -4,6 +4,7 @@ import Mathlib.Algebra.Ring.Rat
 import XgcmModel.Proofs.C01
 import XgcmModel.Gen.GridDefaults
 import XgcmModel.Model.RatOps
+import XgcmModel.Proofs.MetricOps
 /-
   C09 — cumsum is the running sum at the shifted position and inverts diff.
   `Gen.cumsumTable` is regenerated from the if/elif chain of `Grid.cumsum`
@@ -96,6 +97,42 @@ theorem last_value_is_total (o : Ops α) (t : Pos) (ht : t = .outer ∨ t = .rig
   · have hne : ¬ (min xs.length (n - 1 + 1) = 0) := by omega
     simp only [hne, decide_false, Bool.false_eq_true, if_false]
     congr 1; omega
+
+/-- `cumint` feeds data × metric to cumsum, `integrate` sums data × metric: **the last value of
+    cumint on outer and right targets is the integral** — for every cell count, every (non-uniform)
+    metric, every boundary rule and fill value. -/
+theorem cumint_last_is_integrate {K : Type} [Field K] (o : Ops K) (hadd : ∀ a b, o.add a b = a + b)
+    (hzero : o.zero = 0) (t : Pos) (ht : t = .outer ∨ t = .right) (n : Nat) (hn : 2 ≤ n)
+    (r : Rule) (fill : K) (data metric : List K) (hd : data.length = n) (hm : metric.length = n) :
+    specCumsumAt o r fill .center t n
+        (cumintLine id data metric) (t.len n - 1) = integrateCells (data.zip metric) := by
+  have hx : (cumintLine id data metric).length = n := by simp [cumintLine, hd, hm]
+  rw [last_value_is_total o t ht n hn r fill _ hx]
+  have hfun : o.add = (· + ·) := by funext x y; exact hadd x y
+  have hfull : ∀ xs : List K, pre o xs xs.length = xs.sum := by
+    intro xs
+    unfold pre
+    rw [List.take_length, hfun, hzero]
+    have : ∀ (acc : K) (l : List K), l.foldl (· + ·) acc = acc + l.sum := by
+      intro acc l
+      induction l generalizing acc with
+      | nil => simp
+      | cons a r ih => simp only [List.foldl_cons, List.sum_cons, ih]; ring
+    rw [this]; simp
+  rw [hfull]
+  have hz : ∀ (d m : List K), (List.zipWith (· * ·) d m).sum = integrateCells (d.zip m) := by
+    intro d
+    induction d with
+    | nil => intro m; simp [integrateCells]
+    | cons a r ih =>
+      intro m
+      cases m with
+      | nil => simp [integrateCells]
+      | cons b q =>
+        have := ih q
+        simp only [integrateCells] at this
+        simp [integrateCells, this]
+  exact hz data metric
 
 /-- **cumsum over two axes does not depend on their order** when no non-zero
     fill value is in force: for every 2-D slice `g` (sizes a × b) through the
